@@ -114,6 +114,18 @@ def elemStr (v : Nat) : Str :=
   | 7 => [226, 134, 146, 120]      -- "→x"
   | v => 115 :: (Nat.toDigits 10 v).map Char.toNat
 
+/-- integer types an `as` cast in a list binding can go from / to -/
+inductive CastTy
+  | u8 | u16 | u32 | u64 | usize | i8 | i16 | i32 | i64 | isize
+  /-- not a parameter (an expression whose type the translator does not track) / any other type -/
+  | other
+  deriving DecidableEq, Repr, Inhabited
+
+/-- the cast keeps every list length / index (64-bit targets): 64 bits, unsigned -/
+def CastTy.keepsIndices : CastTy → Bool
+  | .u64 | .usize => true
+  | _ => false
+
 end RotoV.ListM
 
 namespace RotoV
